@@ -209,7 +209,9 @@ def run(chk):
     progs = []
     for i in range(n):
         if i % 2 == 0:
-            progs.append(og.ObjGen(rng).program())
+            # every third object program leaves its objects to die together at the end of main: the order of their
+            # destructors must not depend on how the variables are called
+            progs.append(og.ObjGen(rng, die_together=(i % 6 == 0)).program())
         else:
             progs.append((lg.Gen(rng, nfuncs=rng.randint(1, 4)).program(), None))
     # 1. the implementation against the lexically scoped reference interpreter
